@@ -14,6 +14,7 @@ from . import ir as irmod
 sys.setrecursionlimit(20000)
 
 UNDEF = ("undef",)
+_NONNEG = set()   # values known non-negative from the kernel's own assumptions (reset per function)
 
 
 class Unsupported(Exception):
@@ -115,12 +116,18 @@ def mk_bin(op, ty, a, b):
             return mk_ite(a[1], mk_bin(op, ty, a[2], b), mk_bin(op, ty, a[3], b))
         if b[0] == "ite" and _leafconst(b) and is_c(a):
             return mk_ite(b[1], mk_bin(op, ty, a, b[2]), mk_bin(op, ty, a, b[3]))
+    if bits and op == "shl" and is_c(b) and a[0] == "cast" and a[1] == "sext" and _bits(a[2]) and b[2] >= bits - _bits(a[2]):
+        # every extension bit is shifted out: the kind of extension is immaterial (canonical: zext)
+        a = mk_cast("zext", a[2], a[4], a[3])
     if bits and bits > 1:
         def neg_of(e):
             return e[4] if (e[0] == "op" and e[1] == "sub" and is_c(e[3]) and e[3][2] == 0) else None
         if op == "sub" and is_c(a) and a[2] == 0 and neg_of(b) is not None:
             return neg_of(b)
         if op == "mul":
+            for p_, q_ in ((a, b), (b, a)):
+                if p_[0] == "op" and p_[1] == "shl" and is_c(p_[4]) and p_[4][2] < bits:
+                    return mk_bin("shl", ty, mk_bin("mul", ty, p_[3], q_), p_[4])   # (x << c) * y == (x * y) << c  (mod 2^N)
             na, nb = neg_of(a), neg_of(b)
             if na is not None and nb is not None:
                 return mk_bin("mul", ty, na, nb)
@@ -128,6 +135,18 @@ def mk_bin(op, ty, a, b):
                 return mk_bin("sub", ty, C(bits, 0), mk_bin("mul", ty, na, b))
             if nb is not None:
                 return mk_bin("sub", ty, C(bits, 0), mk_bin("mul", ty, a, nb))
+    if op == "or" and bits == 128:
+        for lo, hi in ((a, b), (b, a)):
+            if lo[0] == "cast" and lo[1] == "zext" and lo[2] == "i64" and hi[0] == "op" and hi[1] == "shl" and hi[4] == C(128, 64) \
+                    and hi[3][0] == "cast" and hi[3][1] == "zext" and hi[3][2] == "i64":
+                L, H = lo[4], hi[3][4]
+                # two-word sign extension: the high word is the sign word of the low word
+                if H == mk_bin("ashr", "i64", L, C(64, 63)):
+                    return mk_cast("sext", "i64", L, "i128")
+                if L[0] == "cast" and L[1] == "sext" and H[0] == "cast" and H[1] == "sext" and H[2] == L[2]:
+                    k = _bits(L[2])
+                    if k and H[4] == mk_bin("ashr", L[2], L[4], C(k, k - 1)):
+                        return mk_cast("sext", L[2], L[4], "i128")
     if op == "xor" and bits:
         terms, k = [], 0
         def flat(e):
@@ -187,11 +206,31 @@ def mk_icmp(pred, ty, a, b):
         one = C(bits, 1 if a[1] == "zext" else -1)
         return mk_ite(a[4], mk_icmp(pred, ty, one, b), mk_icmp(pred, ty, C(bits, 0), b))
     # width-insensitive comparison of two extensions (see DESIGN 2.2)
-    if a[0] == "cast" and b[0] == "cast" and a[1] in ("zext", "sext") and b[1] in ("zext", "sext"):
-        xa, xb = (a[1], a[2], a[4]), (b[1], b[2], b[4])
-        if _key(xa) > _key(xb):
-            xa, xb, pred = xb, xa, _SWAP[pred]
-        return ("icmpx", pred, xa, xb)
+    # by-value view: every operand is (kind, source type, source value) with kind sext = its signed value,
+    # zext = its unsigned value, math = a constant; the predicate then compares mathematical values and the
+    # width at which LLVM happened to perform the comparison disappears.  Plain-vs-constant comparisons keep
+    # the plain form (the equality-atom rules work on it).
+    if bits and not ((is_c(a) or is_c(b)) and not (a[0] == "cast" or b[0] == "cast")):
+        signedp = pred in ("eq", "ne", "slt", "sle", "sgt", "sge")
+
+        def view(e):
+            if e[0] == "cast" and e[1] in ("zext", "sext"):
+                x = (e[1], e[2], e[4])
+            elif is_c(e):
+                return ("math", "", sval(e) if signedp else e[2])
+            else:
+                x = ("sext" if signedp else "zext", ty, e)
+            if x[0] == "sext" and x[2] in _NONNEG:
+                x = ("zext", x[1], x[2])
+            if x[0] == "sext" and not signedp:
+                return None     # the unsigned reading of a sign extension depends on the width
+            return x
+        va, vb = view(a), view(b)
+        if va is not None and vb is not None and not (va[0] == "math" and vb[0] == "math"):
+            mp = {"eq": "eq", "ne": "ne", "slt": "lt", "sle": "le", "sgt": "gt", "sge": "ge", "ult": "lt", "ule": "le", "ugt": "gt", "uge": "ge"}[pred]
+            if _key(va) > _key(vb):
+                va, vb, mp = vb, va, {"eq": "eq", "ne": "ne", "lt": "gt", "le": "ge", "gt": "lt", "ge": "le"}[mp]
+            return ("icmpx", mp, va, vb)
     if is_c(a) and not is_c(b):
         a, b, pred = b, a, _SWAP[pred]
     elif not is_c(b) and _key(a) > _key(b):
@@ -210,6 +249,8 @@ def mk_cast(op, ty, a, ty2):
             return C(b2, a[2])
     if op == "trunc" and a[0] == "cast" and a[1] in ("zext", "sext") and a[2] == ty2:
         return a[4]
+    if op == "trunc" and b1 and b2 and a[0] == "op" and a[1] == "lshr" and is_c(a[4]) and a[3][0] == "op" and a[3][1] == "shl" and a[3][4] == a[4] and b2 <= b1 - a[4][2]:
+        return mk_cast("trunc", ty, a[3][3], ty2)     # the low N-c bits of ((z << c) >> c) are those of z
     if op == "trunc" and a[0] == "op" and a[1] in ("add", "sub", "mul", "and", "or", "xor", "shl") and b2:
         if a[1] != "shl" or (is_c(a[4]) and a[4][2] < b2):
             return mk_bin(a[1], ty2, mk_cast("trunc", ty, a[3], ty2), mk_cast("trunc", ty, a[4], ty2))
@@ -217,6 +258,8 @@ def mk_cast(op, ty, a, ty2):
         return mk_cast(a[1], a[2], a[4], ty2)
     if op == "trunc" and a[0] == "cast" and a[1] in ("zext", "sext", "trunc") and b2 and _bits(a[2]) and _bits(a[2]) > b2:
         return mk_cast("trunc", a[2], a[4], ty2)
+    if op == "sext" and a in _NONNEG:
+        op = "zext"
     if op in ("zext", "sext") and ty == "i1" and b2:
         return mk_ite(a, C(b2, 1 if op == "zext" else -1), C(b2, 0))
     if op in ("zext", "sext", "trunc") and a[0] == "ite" and _leafconst(a) and b1 and b2:
@@ -435,19 +478,18 @@ def subst(e, X, K):
         return mk_icmp(e[1], e[2], subst(e[3], X, K), subst(e[4], X, K))
     if t == "icmpx":
         (k1, t1, a1), (k2, t2, a2) = e[2], e[3]
-        sa, sb = subst(a1, X, K), subst(a2, X, K)
+        sa = a1 if k1 == "math" else subst(a1, X, K)
+        sb = a2 if k2 == "math" else subst(a2, X, K)
         if sa is a1 and sb is a2:
             return e
-        if is_c(sa) and is_c(sb):
-            # compare the mathematical values of the extended operands
-            va = sval(sa) if k1 == "sext" else sa[2]
-            vb = sval(sb) if k2 == "sext" else sb[2]
-            p = e[1]
-            if p in ("eq", "ne") or p[0] == "s":
-                r = {"eq": va == vb, "ne": va != vb, "slt": va < vb, "sle": va <= vb, "sgt": va > vb, "sge": va >= vb}[p]
-                return C(1, 1 if r else 0)
-        wide = "i%d" % (max(_bits(t1), _bits(t2)) * 2)
-        return mk_icmp(e[1], wide, mk_cast(k1, t1, sa, wide), mk_cast(k2, t2, sb, wide))
+        wb = 2 * max([_bits(t) for t in (t1, t2) if t] + [8])
+        for v in (sa, sb):
+            if isinstance(v, int):
+                wb = max(wb, v.bit_length() + 2)
+        wide = "i%d" % wb
+        oa = C(wb, sa) if k1 == "math" else mk_cast(k1, t1, sa, wide)
+        ob = C(wb, sb) if k2 == "math" else mk_cast(k2, t2, sb, wide)
+        return mk_icmp({"eq": "eq", "ne": "ne", "lt": "slt", "le": "sle", "gt": "sgt", "ge": "sge"}[e[1]], wide, oa, ob)
     if t == "cast":
         return mk_cast(e[1], e[2], subst(e[4], X, K), e[3])
     if t == "ite":
@@ -486,6 +528,22 @@ def gated(mod, fn, max_paths=4000):
                 continue
             ins.append(l)
         blocks[lab] = ins
+    # loop-free functions only: a back edge makes the re-expression unbounded
+    succ = {}
+    for lab, ins in blocks.items():
+        t = ins[-1] if ins else ""
+        body = t.split("=", 1)[1].strip() if re.match(r"^%\S+\s*=", t) else t
+        succ[lab] = [x[1:] for x in irmod._successors(body)]
+    color = {}
+    def dfs(b):
+        color[b] = 1
+        for x in succ.get(b, []):
+            if color.get(x) == 1:
+                raise Unsupported("loop in CFG")
+            if x not in color and x in blocks:
+                dfs(x)
+        color[b] = 2
+    dfs(fn.order[0])
     args = {}
     for k, (ty, pn) in enumerate(fn.params):
         args[pn] = ("arg", k, ty)
@@ -636,7 +694,12 @@ def gated(mod, fn, max_paths=4000):
                     return res_e
                 raise Unsupported("terminator: " + sb[:60])
             if irmod._impure(body):
-                if "@llvm.assume" in sb or "@llvm.dbg." in sb or "@llvm.lifetime" in sb or "llvm.experimental.noalias" in sb:
+                if "@llvm.assume" in sb:
+                    m = re.match(r"^call void @llvm\.assume\(i1 (\S+)\)$", sb)
+                    if m and m.group(1) in env and lab == fn.order[0]:
+                        _harvest(env[m.group(1)])
+                    continue
+                if "@llvm.dbg." in sb or "@llvm.lifetime" in sb or "llvm.experimental.noalias" in sb:
                     continue
                 # a call that never returns (next instruction is `unreachable`): an effect leaf
                 nxt = ins[ins.index(l) + 1] if ins.index(l) + 1 < len(ins) else ""
@@ -657,7 +720,22 @@ def gated(mod, fn, max_paths=4000):
             env[res] = eval_instr(body, env)
         raise Unsupported("block without terminator")
 
-    return run(fn.order[0], None, args, 0)
+    _NONNEG.clear()
+    first = run(fn.order[0], None, args, 0)
+    if not _NONNEG:
+        return first
+    budget[0] = max_paths
+    return run(fn.order[0], None, args, 0)   # second pass: the harvested sign knowledge is applied everywhere
+
+
+def _harvest(c):
+    """entry-block assumptions of the form x > -1 / x >= 0 / x <u 2^(N-1): x is non-negative"""
+    if c[0] == "icmp" and is_c(c[4]):
+        b = c[4][1]
+        if (c[1] == "sgt" and sval(c[4]) >= -1) or (c[1] == "sge" and sval(c[4]) >= 0) or (c[1] == "ult" and c[4][2] <= (1 << (b - 1))) or (c[1] == "ule" and c[4][2] < (1 << (b - 1))):
+            _NONNEG.add(c[3])
+    if c[0] == "icmpx":
+        pass
 
 
 def _atoms(e, out, seen):
@@ -702,7 +780,7 @@ def show(e, depth=0):
     if t == "icmp":
         return "(%s %s %s)" % (show(e[3], depth + 1), e[1], show(e[4], depth + 1))
     if t == "icmpx":
-        return "(%s(%s) %s %s(%s))" % (e[2][0], show(e[2][2], depth + 1), e[1], e[3][0], show(e[3][2], depth + 1))
+        return "(%s(%s) %s %s(%s))" % (e[2][0], show(e[2][2], depth + 1), e[1], e[3][0], show(e[3][2], depth + 1))  # compared by value
     if t == "cast":
         return "%s<%s>(%s)" % (e[1], e[3], show(e[4], depth + 1))
     if t == "ite":
